@@ -258,6 +258,108 @@ Proof.
 Qed.
 
 (* ================================================================================================ *)
+(* the fuel of the re-scanning loops is never exhausted (on ANY byte string)                        *)
+(* ================================================================================================ *)
+Lemma find_bound c : forall s q, find c s = Some q -> q < length s.
+Proof.
+  induction s as [|x s IH]; intros q H; simpl in *; [discriminate|].
+  destruct (N.eqb x c); [injection H as <-; lia|].
+  destruct (find c s) as [k|]; simpl in H; [|discriminate]. injection H as <-. specialize (IH k eq_refl). lia.
+Qed.
+
+Lemma find_from_bound c s p q : find_from c s p = Some q -> p <= q /\ q < length s.
+Proof.
+  unfold find_from. intros H. destruct (find c (skipn p s)) as [k|] eqn:E; simpl in H; [|discriminate].
+  injection H as <-. apply find_bound in E. rewrite skipn_length in E. lia.
+Qed.
+
+Lemma scan_close_none f s : scan_close f s None = None.
+Proof. destruct f; reflexivity. Qed.
+
+Lemma scan_close_fuel : forall f1 f2 s c,
+  length s - c < f1 -> length s - c < f2 -> scan_close f1 s (Some c) = scan_close f2 s (Some c).
+Proof.
+  induction f1 as [|f1 IH]; intros f2 s c H1 H2; [lia|]. destruct f2 as [|f2]; [lia|].
+  cbn [scan_close]. destruct (find_from RB s (c + 1)) as [c2|] eqn:E; [|reflexivity].
+  destruct (Nat.eqb (c2 - 1) c); [|reflexivity].
+  destruct (find_from RB s (c2 + 1)) as [c'|] eqn:E'; [|now rewrite !scan_close_none].
+  apply find_from_bound in E, E'. apply IH; lia.
+Qed.
+
+Lemma scan_close_ge : forall f s c0 c, scan_close f s (Some c0) = Some c -> c0 <= c.
+Proof.
+  induction f as [|f IH]; intros s c0 c H; [discriminate|]. cbn [scan_close] in H.
+  destruct (find_from RB s (c0 + 1)) as [c2|] eqn:E; [|injection H as <-; lia].
+  destruct (Nat.eqb (c2 - 1) c0); [|injection H as <-; lia].
+  destruct (find_from RB s (c2 + 1)) as [c'|] eqn:E'; [|rewrite scan_close_none in H; discriminate].
+  apply find_from_bound in E, E'. apply IH in H. lia.
+Qed.
+
+Lemma scan_loop_none f s st : scan_loop f s None st = st.
+Proof. destruct f; reflexivity. Qed.
+
+Lemma scan_hole_next s o st c st' :
+  scan_hole s o st = (Some c, st') -> o < c.
+Proof.
+  unfold scan_hole. destruct (find_from RB s (o + 1)) as [c0|] eqn:E.
+  - destruct (scan_close (S (length s)) s (Some c0)) as [c1|] eqn:E1; [|intros H; discriminate].
+    destruct (split_colon _) as [name syntax]. intros H. injection H as <- _.
+    apply find_from_bound in E. apply scan_close_ge in E1. lia.
+  - rewrite scan_close_none. intros H; discriminate.
+Qed.
+
+Lemma scan_loop_fuel : forall f1 f2 s o st,
+  length s - o < f1 -> length s - o < f2 -> scan_loop f1 s (Some o) st = scan_loop f2 s (Some o) st.
+Proof.
+  induction f1 as [|f1 IH]; intros f2 s o st H1 H2; [lia|]. destruct f2 as [|f2]; [lia|].
+  cbn [scan_loop].
+  destruct (match find_from LB s (o + 1) with
+            | Some o2 => if Nat.eqb (o2 - 1) o then Some o2 else None
+            | None => None end) as [o2|] eqn:Eesc.
+  - destruct (find_from LB s (o + 1)) as [o2'|] eqn:E; [|discriminate].
+    destruct (Nat.eqb (o2' - 1) o); [|discriminate]. injection Eesc as <-.
+    destruct (find_from LB s (o2' + 1)) as [o'|] eqn:E'; [|now rewrite !scan_loop_none].
+    apply find_from_bound in E, E'. apply IH; lia.
+  - destruct (scan_hole s o st) as [[c|] st'] eqn:Eh; [|now rewrite !scan_loop_none].
+    apply scan_hole_next in Eh.
+    destruct (find_from LB s c) as [o'|] eqn:E'; [|now rewrite !scan_loop_none].
+    apply find_from_bound in E'. apply IH; lia.
+Qed.
+
+(* [scan] gives the same result with any larger fuel: the bound length+1 is never reached *)
+Theorem scan_fuel_irrelevant s f st :
+  length s < f ->
+  scan_loop f s (find_from LB s 0) st = scan_loop (S (length s)) s (find_from LB s 0) st.
+Proof.
+  intros Hf. destruct (find_from LB s 0) as [o|]; [|now rewrite !scan_loop_none].
+  apply scan_loop_fuel; lia.
+Qed.
+
+Lemma cn_inner_len : forall s cnt, length (fst (cn_inner s cnt)) <= length s.
+Proof.
+  fix IH 1. intros s cnt. destruct s as [|c t]; simpl; auto.
+  destruct (N.eqb c RB).
+  - destruct t as [|d t']; simpl; auto.
+    destruct (N.eqb d RB); simpl; [|lia]. specialize (IH t' (S cnt)). lia.
+  - specialize (IH t (S cnt)). lia.
+Qed.
+
+Theorem contains_fuel_irrelevant : forall f1 f2 s found,
+  length s <= f1 -> length s <= f2 -> cn_outer f1 s found = cn_outer f2 s found.
+Proof.
+  induction f1 as [|f1 IH]; intros f2 s found H1 H2.
+  - destruct s; [|simpl in H1; lia]. destruct f2; reflexivity.
+  - destruct s as [|c t]; [destruct f2; reflexivity|]. destruct f2 as [|f2]; [simpl in H2; lia|].
+    simpl in H1, H2. cbn [cn_outer]. destruct (N.eqb c LB).
+    + destruct t as [|fc t']; [reflexivity|]. destruct (N.eqb fc LB).
+      * apply IH; simpl in *; lia.
+      * pose proof (cn_inner_len (fc :: t') 0) as L.
+        destruct (cn_inner (fc :: t') 0) as [rest cnt]. simpl in L.
+        apply IH; destruct rest; simpl in *; lia.
+    + apply IH; lia.
+Qed.
+
+(* ================================================================================================ *)
 (* _contains_named_args                                                                             *)
 (* ================================================================================================ *)
 Fixpoint has_hole (t : tpl) : bool :=
